@@ -131,6 +131,7 @@ Inductive chunk :=
 | KClassAttr (fs : list cform)                   (*  class="..." *)
 | KCallAttr (s : script)                         (*  onclick="call" *)
 | KClose                                         (* ></div> *)
+| KMiddleware (l : list cls)                     (* no bytes: the context passed through a CSS middleware holding these classes *)
 | KOnceBegin (h : N) | KOnceEnd (h : N) | KOnceSkip (h : N).   (* no bytes: where a once body starts/ends, a skipped render *)
 
 (* the component classes an element's class attribute actually names *)
@@ -149,10 +150,19 @@ Definition elem (r : reg) (fs : list cform) (sl : list script) : reg * list chun
 (* runtime.go WithNonce: v.nonce = nonce on the context value every derived context shares *)
 Definition set_nonce (r : reg) (n : bytes) : reg := mkReg (ss r) (hs r) n.
 
+(* NewCSSHandler keeps the ComponentCSSClass values only *)
+Definition handler_comps (l : list cssclass) : list cls := flat_map rules_class l.
+(* CSSMiddleware.ServeHTTP: ctx, v := getContext(r.Context()); v.addClass(c.ID) for each registered class:
+   the registry the request context already carries is the one that is extended *)
+Definition add_classes (r : reg) (ks : list cls) : reg := fold_left (fun r k => add r (clid k)) ks r.
+(* CSSHandler.ServeHTTP: the stylesheet endpoint's body *)
+Definition sheet_of (l : list cssclass) : bytes := concat (map crule (handler_comps l)).
+
 Fixpoint step (r : reg) (o : op) {struct o} : reg * list chunk :=
   match o with
   | OText t => (r, [KText t])
   | ONonce n => (set_nonce r n, [])
+  | OMiddleware l => (add_classes r (handler_comps l), [KMiddleware (handler_comps l)])
   | OScriptItems l => let '(r', n) := emit_new sid r l in (r', [KScriptTag (nonce r) n])
   | ORender s =>
       let '(r', n) := emit_new sid r [s] in
@@ -186,6 +196,7 @@ Definition log1 (c : chunk) : list ev :=
   | KOnceBegin h => [Def (Handle h)]
   | KOnceEnd h => [Use (Handle h)]
   | KOnceSkip h => [Use (Handle h)]
+  | KMiddleware l => map (fun c => Reg (clid c)) l
   | _ => []
   end.
 Definition log (cs : list chunk) : list ev := flat_map log1 cs.
@@ -227,7 +238,7 @@ Definition render1 (c : chunk) : bytes :=
   | KClassAttr fs => bs " class=""" ++ join_sp (class_attr fs) ++ bs """"
   | KCallAttr s => bs " onclick=""" ++ scall s ++ bs """"
   | KClose => bs "></div>"
-  | KOnceBegin _ => [] | KOnceEnd _ => [] | KOnceSkip _ => []
+  | KOnceBegin _ => [] | KOnceEnd _ => [] | KOnceSkip _ => [] | KMiddleware _ => []
   end.
 Definition render (cs : list chunk) : bytes := flat_map render1 cs.
 
@@ -235,14 +246,11 @@ Definition render (cs : list chunk) : bytes := flat_map render1 cs.
 (* a context as the CSS middleware (or a plain InitializeContext) hands it to the page:
    mw = Some classes for a request that went through NewCSSMiddleware(next, classes...) *)
 Record cfg := mkCfg { cnonce : bytes; cmw : option (list cssclass) }.
-(* NewCSSHandler keeps the ComponentCSSClass values only *)
 Definition mw_comps (c : cfg) : list cls :=
-  match cmw c with None => [] | Some l => flat_map rules_class l end.
-(* CSSMiddleware.ServeHTTP: v.addClass(c.ID) for each registered class *)
-Definition init_reg (c : cfg) : reg :=
-  fold_left (fun r k => add r (clid k)) (mw_comps c) (mkReg [] [] (cnonce c)).
-(* CSSHandler.ServeHTTP: the stylesheet endpoint's body *)
-Definition stylesheet (c : cfg) : bytes := concat (map crule (mw_comps c)).
+  match cmw c with None => [] | Some l => handler_comps l end.
+(* CSSMiddleware.ServeHTTP on a request whose context carries nothing yet *)
+Definition init_reg (c : cfg) : reg := add_classes (mkReg [] [] (cnonce c)) (mw_comps c).
+Definition stylesheet (c : cfg) : bytes := match cmw c with None => [] | Some l => sheet_of l end.
 
 (* several contexts, uses interleaved in any order; each use names its context *)
 Definition upd (st : nat -> reg) (c : nat) (r : reg) : nat -> reg :=
